@@ -59,36 +59,46 @@ theorem formatPath_raw (w : WCtx) (dirOnly : Bool) (v : Y)
     rcases h with ⟨h0, h1 | h1⟩ <;> simp [*]
   simp [this]
 
-/-! ### the NODIR regex (always the Windows variant in `Glob`, compiled without DOTALL) -/
+/-! ### the NODIR regex (the POSIX variant on this host since the D16 repair; `(?s:` since D18) -/
 
-theorem iter_any_noNl (s t : List Char) (b : Bool) (h : ∀ c ∈ s, c ≠ '\n') :
-    Iter (Re.M ⟨false, false⟩ .any) ⟨b, s ++ t⟩ ⟨(if s = [] then b else false), t⟩ := by
+/-- under DOTALL `.*?` runs over any characters, newlines included -/
+theorem iter_any_dotall (s t : List Char) (b : Bool) :
+    Iter (Re.M ⟨true, false⟩ .any) ⟨b, s ++ t⟩ ⟨(if s = [] then b else false), t⟩ := by
   induction s generalizing b with
   | nil => simpa using Iter.refl _
   | cons c r ih =>
-    have hc : c ≠ '\n' := h c List.mem_cons_self
-    have hr : ∀ d ∈ r, d ≠ '\n' := fun d hd => h d (List.mem_cons_of_mem _ hd)
     refine Iter.step (b := ⟨false, r ++ t⟩) ?_ ?_
     · refine ⟨c, r ++ t, rfl, ?_, rfl⟩
-      simp [anyMatch, hc]
-    · have := ih false hr
+      simp [anyMatch]
+    · have := ih false
       simp only [List.cons_ne_nil, if_false]
       by_cases hre : r = []
       · subst hre; simpa using this
       · simpa [hre] using this
 
-/-- **the NODIR exclusion matches every path that ends in a separator**, provided the path
-    has no newline (D18: the regex is compiled without `(?s)`). -/
-theorem noWinDir_matches_dir (p : List Char) (h : ∀ c ∈ p, c ≠ '\n') :
-    Frag.noWinDir.fullmatch (p ++ ['/']) = true := by
+/-- **the NODIR exclusion matches every path that ends in a separator** — every path: since
+    the D18 repair (`(?s:`) a newline in the path no longer stops `.*?`. -/
+theorem noNixDir_matches_dir (p : List Char) : Frag.noNixDir.fullmatch (p ++ ['/']) = true := by
   rw [Re.fullmatch_iff]
-  unfold Re.FullMatch Frag.noWinDir
+  unfold Re.FullMatch Frag.noNixDir
   refine ⟨false, ?_⟩
-  -- ^ (?: .*? (?: … | [\\/]) | … ) $
+  -- ^ (?s: .*? (?: … | /) | … ) $
   simp only [Re.M]
   refine ⟨⟨true, p ++ ['/']⟩, ⟨rfl, trivial⟩, ⟨false, []⟩, ?_, rfl, by decide⟩
   refine Or.inl ⟨⟨(if p = [] then true else false), ['/']⟩, ?_, Or.inr ?_⟩
-  · exact iter_any_noNl p ['/'] true h
+  · exact iter_any_dotall p ['/'] true
+  · refine ⟨'/', [], rfl, ?_, rfl⟩
+    decide
+
+/-- the same for the Windows variant (held under FORCEWIN only; used by the matching side) -/
+theorem noWinDir_matches_dir (p : List Char) : Frag.noWinDir.fullmatch (p ++ ['/']) = true := by
+  rw [Re.fullmatch_iff]
+  unfold Re.FullMatch Frag.noWinDir
+  refine ⟨false, ?_⟩
+  simp only [Re.M]
+  refine ⟨⟨true, p ++ ['/']⟩, ⟨rfl, trivial⟩, ⟨false, []⟩, ?_, rfl, by decide⟩
+  refine Or.inl ⟨⟨(if p = [] then true else false), ['/']⟩, ?_, Or.inr ?_⟩
+  · exact iter_any_dotall p ['/'] true
   · unfold Frag.sep Frag.sepItems
     simp only [Re.M, if_true]
     refine ⟨'/', [], rfl, ?_, rfl⟩
@@ -98,12 +108,13 @@ end WcModel
 
 namespace WcModel
 
-/-- a candidate flagged as a directory is excluded by the NODIR regex (paths without newline) -/
-theorem noWinDir_excludes (w : WCtx) (v : Y) (hin : Frag.noWinDir ∈ w.excl) (hd : v.isDir = true)
-    (hnl : ∀ c ∈ v.path, c ≠ '\n') : isExcluded w v = true := by
+/-- a candidate flagged as a directory is excluded by the NODIR regex — whatever its path is
+    (the "no newline" hypothesis this lemma needed before the D18 repair is gone) -/
+theorem noNixDir_excludes (w : WCtx) (v : Y) (hin : Frag.noNixDir ∈ w.excl) (hd : v.isDir = true) :
+    isExcluded w v = true := by
   unfold isExcluded
   rw [List.any_eq_true]
-  refine ⟨Frag.noWinDir, hin, ?_⟩
+  refine ⟨Frag.noNixDir, hin, ?_⟩
   unfold exclSubject
   by_cases hl : v.path.getLast? = some '/'
   · have : (v.isDir && v.path.getLast? != some '/') = false := by simp [hl]
@@ -119,17 +130,15 @@ theorem noWinDir_excludes (w : WCtx) (v : Y) (hin : Frag.noWinDir ∈ w.excl) (h
         simp at hl
         exact ⟨r.reverse, by rw [this, hl]⟩
     rw [hq]
-    apply noWinDir_matches_dir
-    intro c hc
-    exact hnl c (by rw [hq]; exact List.mem_append_left _ hc)
+    exact noNixDir_matches_dir _
   · have : (v.isDir && v.path.getLast? != some '/') = true := by simp [hd, hl]
     simp only [this, if_true]
-    exact noWinDir_matches_dir _ hnl
+    exact noNixDir_matches_dir _
 
-/-- **NODIR wiring**: when NODIR is set, the (Windows, D16) no-directory regex is among the
+/-- **NODIR wiring**: when NODIR is set, the (POSIX: D16 repaired) no-directory regex is among the
     exclusions `Glob.__init__` builds — whatever the patterns and `exclude=` are -/
 theorem parsePatterns_nodir (g : GInit) (exps : List (List (List Char))) (o o' : GlobObj)
-    (hn : g.nodir = true) (h : parsePatterns g exps false o = .ok o') : Frag.noWinDir ∈ o'.npatterns := by
+    (hn : g.nodir = true) (h : parsePatterns g exps false o = .ok o') : Frag.noNixDir ∈ o'.npatterns := by
   unfold parsePatterns at h
   split at h
   · cases h
@@ -184,7 +193,7 @@ theorem parsePatterns_npatterns_mono (g : GInit) (exps : List (List (List Char))
 /-- `Glob.__init__` as a whole: NODIR ⇒ the no-directory regex is an exclusion -/
 theorem build_nodir (g : GInit) (exps : List (List (List Char))) (excl : Option (List (List (List Char))))
     (o : GlobObj) (hn : g.nodir = true) (h : GlobObj.build g (some exps) excl = .ok o) :
-    Frag.noWinDir ∈ o.npatterns := by
+    Frag.noNixDir ∈ o.npatterns := by
   unfold GlobObj.build at h
   simp only at h
   split at h
